@@ -234,9 +234,15 @@ func (i membershipFactory) New(ctx context.Context) gossip.Task {
 			EventDigest:   s.Snapshot.EventDigest,
 		}
 
-		ok, err := a.Qed.MembershipVerify(s.Snapshot.EventDigest, proof, checkSnap)
-		if err != nil {
-			return err
+		// the answer has to be for the audited version: a log that does not
+		// hold that version answers for its current one, which proves nothing
+		// about this snapshot
+		ok := proof.QueryVersion == s.Snapshot.Version
+		if ok {
+			ok, err = a.Qed.MembershipVerify(s.Snapshot.EventDigest, proof, checkSnap)
+			if err != nil {
+				return err
+			}
 		}
 		if !ok {
 			_ = a.Notifier.Alert(fmt.Sprintf("Unable to verify snapshot %v", s.Snapshot))
